@@ -151,9 +151,22 @@ func sanitize(s string) string {
 // BVar creates a bound variable (unique name).
 var bvarCtr int
 
+// bvarScope, when set, makes bound-variable names deterministic (scope-local
+// counter), so that re-expanding the same specification in the same state
+// yields the identical (hash-consed) term.
+var bvarScope string
+var bvarScopeCtr int
+
 func BVar(name string, s Sort) *Term {
-	bvarCtr++
-	t := intern(&Term{op: fmt.Sprintf("%s?%d", sanitize(name), bvarCtr), sort: s})
+	var nm string
+	if bvarScope != "" {
+		bvarScopeCtr++
+		nm = fmt.Sprintf("%s?%s.%d", sanitize(name), bvarScope, bvarScopeCtr)
+	} else {
+		bvarCtr++
+		nm = fmt.Sprintf("%s?%d", sanitize(name), bvarCtr)
+	}
+	t := intern(&Term{op: nm, sort: s})
 	t.bound = true
 	return t
 }
